@@ -21,9 +21,9 @@ import c05gen  # noqa: E402
 ID = "C05"
 ALLOWED_AXIOMS = []
 TRUSTED_BASE = [
-    "coqc 8.16.1 kernel; vm_compute for the refutation witness and the facts about the scraped type table; no native_compute",
+    "coqc 8.16.1 kernel; vm_compute for the refutation witnesses and the facts about the scraped constants (five `reflexivity` pins: a reverted repair breaks Proofs.v); no native_compute",
     "no axioms: every theorem of coq/C05/Properties.v is 'Closed under the global context'",
-    "translator checks/C05.py:gen (regex scrape of `casescope.switchcase_index = ...` in analyzer.lua visitors.Switch and of the fixed-size IntegralType entries of typedefs.lua)",
+    "translator checks/C05.py:gen: regex scrapes of analyzer.lua (visitors.Switch `casescope.switchcase_index = <loop var>`; visitors.Break/Continue calling check_jump_out_of_defer and visitors.Defer marking is_deferblock; visitors.Id's accessibility check standing after the forcesymbol branch; visitors.Goto's is_deferblock test inside its walk) and of the fixed-size IntegralType entries of typedefs.lua; gen() raises when the min/max/is_inrange formulas of types.lua or the followed-by-another-block test of visitors.Fallthrough change shape",
     "extraction: Require Extraction + ExtrOcamlBasic only; coq/C05/driver.ml (parser of the program text, printer of offenders and rule verdicts), ocaml/zutil.ml, OCaml 4.13.1",
     "harness/C05/c05gen.py: program generator, Nelua pretty-printer (statement id = source line), the six embeddings, parser/classifier of the compiler's diagnostics",
     "modelled rather than verified: analyzer.lua/scope.lua/symbol.lua devices are mirrored by hand in coq/C05/Model.v (offenders); tie = accept/reject + position + message class on every generated program",
@@ -31,8 +31,8 @@ TRUSTED_BASE = [
 ASSUMPTIONS = [
     "type convertibility of non-scalar arguments and pointer arithmetic rules are outside the model (fixed rule table x embeddings, tests)",
     "the goto rule binds a goto to the nearest enclosing already-declared label, else the nearest enclosing later-declared one",
-    "rule_labels (the `_partial` statement) uses Lua 5.4's label rule (a label may not repeat a VISIBLE label); the property's literal reading (unique per function, no goto out of a defer block) is rule_labels_full, refuted",
-    "known findings: two exact witnesses + two class keys (code site named) for programs breaking ONLY a refuted label clause that the mechanism model of the unchanged analyzer also accepts; anything else is a VIOLATION",
+    "labels: rule_ok (the `_partial` statement) uses Lua 5.4's label rule (a label may not repeat a VISIBLE label); the property's literal reading (unique per function) is rule_labels_unique / rule_ok_full, refuted; the goto clauses (no goto crosses an executed/skipped defer, none leaves a defer block) are proved at full strength",
+    "known findings: one exact witness (do ::l1:: end ::l1::) + one class key naming the code site (visitors.Label / Scope:find_label) for generated programs that break ONLY `labels unique per function` and that the mechanism model of the unchanged analyzer also accepts; anything else is a VIOLATION",
     "correspondence is differential testing over generated programs x embeddings, not a proof that model = code",
 ]
 
